@@ -747,11 +747,21 @@ fn life_params(l: &LifeCfg, cap: u64, now: u64) -> String {
 /// Oracle (real code only): what recovery returned at a quiescent point of any life is absorbed by
 /// what recovery returns at every later point of the history (nothing confirmed is lost by a
 /// crash, a restart, a compaction pass or a later failed flush); recovery of every image succeeds.
-async fn lives_case(out: &mut Out, rng: &mut Rng, cap: u64) {
+async fn lives_case(out: &mut Out, rng: &mut Rng, cap: u64, corpus: bool) {
     use std::collections::{BTreeMap, HashMap};
     let rid = 1;
-    let nlives = rng.range(2, 4) as usize;
-    let lives: Vec<LifeCfg> = (0..nlives).map(|_| gen_life(rng)).collect();
+    let nlives = if corpus { 2 } else { rng.range(2, 4) as usize };
+    let mut lives: Vec<LifeCfg> = (0..nlives).map(|_| gen_life(rng)).collect();
+    if corpus {
+        // fixed first life: the compaction worker next to the actor, thresholds out of reach (everything
+        // is still buffered when the shutdown comes), no faults, a clean shutdown
+        lives[0] = LifeCfg {
+            wb: WriteBufferConfig { flush_interval: Duration::from_secs(3600), max_size_bytes: 1 << 30, max_deltas: 1 << 30, backpressure_threshold_bytes: 1 << 40, compression_enabled: false },
+            zero: false,
+            compaction: Some(CompactionCfgSerde { max_segments: 2, min_segments_to_compact: 2, max_segments_per_compaction: 4, target_segment_size: 1 << 20, tombstone_ttl: Duration::MAX, compression_enabled: false, ..CompactionCfgSerde::test() }),
+            faults: vec![],
+        };
+    }
     let mut image: BTreeMap<String, Vec<u8>> = BTreeMap::new();
     // (description, fold of the recovery at that point) of every point that is in the past of the history
     let mut past: Vec<(String, HashMap<String, redis_sim::replication::state::ReplicatedValue>)> = Vec::new();
@@ -801,9 +811,10 @@ async fn lives_case(out: &mut Out, rng: &mut Rng, cap: u64) {
             text.push_str(&format!(";{}", l));
             out.op(l, format!("calls={} segs={}", store.calls(), segs_of(&store)));
         }
+        let mut sent_this_life: Vec<Upd> = Vec::new();
         let nb = rng.range(1, 4);
         for bi in 0..nb {
-            let n = rng.below(4);
+            let n = if corpus && li == 0 { 2 } else { rng.below(4) };
             for _ in 0..n {
                 t += 1;
                 // few keys, two replicas: merges inside and across segments and lives
@@ -812,6 +823,7 @@ async fn lives_case(out: &mut Out, rng: &mut Rng, cap: u64) {
                 let line = sd_line("ASEND", &u);
                 text.push_str(&format!(";{}", line));
                 out.op(line, if r.is_ok() { "ok".into() } else { "err disconnected".to_string() });
+                sent_this_life.push(u);
             }
             tokio::time::sleep(Duration::from_millis(25)).await;
             out.op("ADRAIN".into(), "ok".into());
@@ -837,7 +849,7 @@ async fn lives_case(out: &mut Out, rng: &mut Rng, cap: u64) {
         }
         // how this life ends
         let calls = store.calls();
-        let kind = if li + 1 == lives.len() { 1 } else { rng.below(3) };
+        let kind = if corpus && li == 0 { 2 } else if li + 1 == lives.len() { 1 } else { rng.below(3) };
         let mut crash: Option<(u64, bool)> = None;
         match kind {
             0 if calls > 0 => {
@@ -863,6 +875,23 @@ async fn lives_case(out: &mut Out, rng: &mut Rng, cap: u64) {
                 out.op("ARUN".into(), format!("calls={} segs={}", store.calls(), segs_of(&store)));
                 text.push_str(";SHUTDOWN");
                 image = store.image();
+                // oracle (real code only): a clean shutdown without a store fault and far from the
+                // back-pressure threshold leaves every update of this life in a listed segment —
+                // with or without the compaction worker next to the actor
+                if life.faults.is_empty() && life.wb.backpressure_threshold_bytes >= 1 << 30 {
+                    if let Ok(r) = recover_image(&image, rid).await {
+                        let fold = crate::c11::fold_recovered(&r);
+                        for u in &sent_this_life {
+                            let absorbed = fold.get(&u.0).map_or(false, |cur| MRv::from_real(&cur.merge(&u.1)).show() == MRv::from_real(cur).show());
+                            if !absorbed {
+                                out.violation("C12:workers:update-lost-without-fault",
+                                    &format!("life {} (compaction worker: {}): after a clean shutdown (no store fault, back-pressure threshold never reached, mailbox far below capacity) the update of key {} handed to the sink is in no listed segment", li, life.compaction.is_some(), u.0),
+                                    json!({"workload": text, "key": hex(u.0.as_bytes())}));
+                                break;
+                            }
+                        }
+                    }
+                }
                 out.count("x:lives:end:clean-shutdown");
             }
             _ => {
@@ -1137,6 +1166,7 @@ pub async fn run_all(out: &mut Out, rng: &mut Rng, n: u64, paused: bool) {
         capacity_case(out, cap).await;
         start_failure_case(out).await;
         stall_case(out, &mut Rng::new(0xC12), cap, Some(61_000)).await;
+        lives_case(out, &mut Rng::new(0xC12), cap, true).await;
         for i in 0..n {
             if i % 4 == 0 {
                 let mut r = rng.fork();
@@ -1149,7 +1179,7 @@ pub async fn run_all(out: &mut Out, rng: &mut Rng, n: u64, paused: bool) {
             }
             if i % 2 == 0 {
                 let mut r = rng.fork();
-                lives_case(out, &mut r, cap).await;
+                lives_case(out, &mut r, cap, false).await;
             }
             if i % 5 == 1 {
                 let mut r = rng.fork();
